@@ -48,6 +48,9 @@ func TestSelfCurve(t *testing.T) {
 			if !p.Mul(k).Eq(p.MulAffine(k)) {
 				t.Fatalf("Mul mismatch k=%x", k)
 			}
+			if !BaseMul(k).Eq(G().MulAffine(k)) {
+				t.Fatalf("BaseMul mismatch k=%x", k)
+			}
 			if !p.Mul(k).Valid() {
 				t.Fatal("Mul result invalid")
 			}
